@@ -78,9 +78,20 @@ class ExecutorBase:
         self.old_mode = None                  # (heap, locals) while evaluating old(...)/pre(...)
         self.spec_env = {}
         self._enum_cache = {}
+        self.reach = {}                       # vacuity canaries: label -> number of feasible arrivals
 
     # ------------------------------------------------------------------------------------ small helpers
     def fresh_sv(self, base, ty: Ty | None) -> SV:
+        if ty is not None and not ty.nullable and ty.name in ("int", "float", "str", "bool"):
+            # primitives are created unboxed-then-boxed: no datatype tester needed by the solvers
+            st = self.st
+            if ty.name == "int":
+                return SV(mk_int(st.fresh(base, INT)), ty)
+            if ty.name == "float":
+                return SV(mk_real(st.fresh(base, z3.RealSort())), ty)
+            if ty.name == "str":
+                return SV(mk_str(st.fresh(base, z3.StringSort())), ty)
+            return SV(mk_bool(st.fresh(base, z3.BoolSort())), ty)
         t = self.st.fresh_val(base)
         self.assume_type(t, ty)
         return SV(t, ty)
